@@ -198,4 +198,90 @@ theorem holdsFrom_trace (m n : Nat) (all : List HealthLifecycle.Op) (ops : List 
     rw [e] at this ⊢
     exact this
 
+/-! ### a cluster without a health checker keeps no session checker -/
+/-- a cluster without a health checker keeps no session checker -/
+def NoChk (s : St) : Prop := ∀ k, s.c.checked k = false → ∀ a, s.w.chk k a = none
+
+theorem result_chk_other (k : Cid) (a : Addr) (r : Result) (w : World) (k' : Cid) (a' : Addr) (h : w.chk k' a' = none) :
+    (HealthLifecycle.result k a r w).1.chk k' a' = none := by
+  unfold HealthLifecycle.result
+  split
+  · exact h
+  · rename_i c hc
+    split
+    · exact h
+    · simp only [HealthLifecycle.upd2_apply]
+      split
+      · rename_i e; obtain ⟨e1, e2⟩ := e; subst e1 e2; rw [hc] at h; cases h
+      · exact h
+
+theorem noChk_step (s : St) (op : SOp) (hi : NoChk s) : NoChk (step s op).1 := by
+  intro k hk a
+  rw [step_eq, runLc_fst] at hk ⊢
+  simp only at hk ⊢
+  cases op with
+  | result k0 a0 r =>
+    have hk' : s.c.checked k = false := by simpa [Cfg.step, Cfg.target] using hk
+    simp only [compile, runOps, List.foldl_cons, List.foldl_nil, HealthLifecycle.step]
+    exact result_chk_other k0 a0 r s.w k a (hi k hk' a)
+  | outlier a0 on =>
+    have hk' : s.c.checked k = false := by simpa [Cfg.step, Cfg.target] using hk
+    simp only [compile, runOps, List.foldl_cons, List.foldl_nil, HealthLifecycle.step]
+    exact hi k hk' a
+  | update k0 hs =>
+    have hk' : s.c.checked k = false := by simpa [Cfg.step, Cfg.target] using hk
+    simp only [compile]
+    split
+    · rename_i hc
+      simp only [runOps, List.foldl_cons, List.foldl_nil, HealthLifecycle.step]
+      rw [HealthLifecycle.setHosts_chk]
+      have : k ≠ k0 := by intro e; subst e; rw [hk'] at hc; cases hc
+      simp [this, hi k hk' a]
+    · exact hi k hk' a
+  | append k0 x =>
+    have hk' : s.c.checked k = false := by simpa [Cfg.step, Cfg.target] using hk
+    simp only [compile]
+    split
+    · rename_i hc
+      simp only [runOps, List.foldl_cons, List.foldl_nil, HealthLifecycle.step]
+      rw [HealthLifecycle.setHosts_chk]
+      have : k ≠ k0 := by intro e; subst e; rw [hk'] at hc; cases hc
+      simp [this, hi k hk' a]
+    · exact hi k hk' a
+  | remove k0 x =>
+    have hk' : s.c.checked k = false := by simpa [Cfg.step, Cfg.target] using hk
+    simp only [compile]
+    split
+    · rename_i hc
+      simp only [runOps, List.foldl_cons, List.foldl_nil, HealthLifecycle.step]
+      rw [HealthLifecycle.setHosts_chk]
+      have : k ≠ k0 := by intro e; subst e; rw [hk'] at hc; cases hc
+      simp [this, hi k hk' a]
+    · exact hi k hk' a
+  | reconf k0 cf =>
+    cases cf with
+    | none =>
+      simp only [compile, runOps, List.foldl_cons, List.foldl_nil, HealthLifecycle.step]
+      by_cases e : k = k0
+      · simp [e]
+      · have hk' : s.c.checked k = false := by simpa [Cfg.step, Cfg.target, HealthLifecycle.upd_apply, e] using hk
+        simp [e, HealthLifecycle.stopAll_chk, hi k hk' a]
+    | some p =>
+      obtain ⟨u, h⟩ := p
+      have e : k ≠ k0 := by
+        intro e; subst e
+        simp [Cfg.step, Cfg.target, HealthLifecycle.upd_apply] at hk
+      have hk' : s.c.checked k = false := by simpa [Cfg.step, Cfg.target, HealthLifecycle.upd_apply, e] using hk
+      simp only [compile, runOps, List.foldl_cons, List.foldl_nil, HealthLifecycle.step]
+      rw [HealthLifecycle.setHosts_chk]
+      simp [e, HealthLifecycle.stopAll_chk, hi k hk' a]
+
+theorem noChk_run (s : St) (ops : List SOp) (hi : NoChk s) : NoChk (run s ops) := by
+  induction ops generalizing s with
+  | nil => exact hi
+  | cons op ops ih => exact ih _ (noChk_step s op hi)
+
+theorem noChk_init (checked : Cid → Bool) (cfg : Cid → Nat × Nat) (words0 : Addr → Word) : NoChk (St.init checked cfg words0) :=
+  fun _ _ _ => rfl
+
 end MosnVerif.Model.HealthShare
